@@ -346,6 +346,20 @@ Proof.
     autorewrite with routed. apply covers_refl.
 Qed.
 
+Lemma environment_covers e :
+  covers (environment_scalars e)
+    (routed_scalars
+       (at_ ("VisitJobPost", "checkString", "n.Environment.Name") (check_string "jobs.<job_id>.environment" "Environment.Name" (ev_ename e))
+        ++ at_ ("VisitJobPost", "checkString", "n.Environment.URL") (check_string "jobs.<job_id>.environment.url" "Environment.URL" (ev_url e)))).
+Proof. unfold environment_scalars. autorewrite with routed. apply covers_refl. Qed.
+
+Lemma strategy_rest_covers ff mp :
+  covers (of_bool "Strategy.FailFast" ff ++ of_int "Strategy.MaxParallel" mp)
+    (routed_scalars
+       (at_ ("VisitJobPre", "checkBool", "n.Strategy.FailFast") (check_bool strategy_key "Strategy.FailFast" ff)
+        ++ at_ ("VisitJobPre", "checkInt", "n.Strategy.MaxParallel") (check_int strategy_key "Strategy.MaxParallel" mp))).
+Proof. autorewrite with routed. apply covers_refl. Qed.
+
 Lemma job_covers j : ok_job j = true -> covers (job_scalars j) (routed_scalars (visit_job fx j)).
 Proof.
   unfold ok_job. intros Hok.
@@ -365,8 +379,8 @@ Proof.
   - (* permissions: exempt *)
     destruct perms as [p|]; cbn [of_opt]; [|apply covers_nil]. apply covers_exempt, permissions_exempt.
   - (* environment, in VisitJobPost *)
-    destruct envr as [e|]; cbn [of_opt]; [|apply covers_nil]. unfold environment_scalars.
-    covers_search ltac:(autorewrite with routed; apply covers_refl).
+    destruct envr as [e|]; cbn [of_opt]; [|apply covers_nil].
+    covers_search ltac:(apply environment_covers).
   - (* outputs, in VisitJobPost *)
     covers_search ltac:(unfold of_map; rewrite routed_flat_map; apply covers_flat_map;
                         intros kv _; autorewrite with routed; apply covers_refl).
@@ -376,11 +390,10 @@ Proof.
                         intros s Hs; apply step_covers; exact (forallb_In _ _ _ Hsteps Hs)).
   - (* strategy: matrix at the start of VisitJobPre, the rest later *)
     destruct strat as [[mat ff mp]|]; cbn [of_opt opt_all st_matrix st_fail_fast st_max_parallel] in *; [|apply covers_nil].
-    unfold strategy_scalars; cbn [st_matrix st_fail_fast st_max_parallel]. split_covers.
+    unfold strategy_scalars; cbn [st_matrix st_fail_fast st_max_parallel]. apply covers_app_l.
     + destruct mat as [m|]; cbn [of_opt opt_all] in *; [|apply covers_nil].
       covers_search ltac:(rewrite routed_at; apply matrix_covers, Hstrat).
-    + covers_search ltac:(autorewrite with routed; by_refl).
-    + covers_search ltac:(autorewrite with routed; by_refl).
+    + covers_search ltac:(apply strategy_rest_covers).
   - covers_search ltac:(apply ocontainer_covers, Hcont).
   - destruct svc as [s|]; cbn [of_opt opt_all] in *; [|apply covers_nil].
     covers_search ltac:(apply services_covers, Hsvc).
